@@ -363,6 +363,15 @@ impl Monitor for C10 {
             if out.is_empty() && ev.salt % 2 == 0 && ev.tx.ixs.len() == 1 {
                 packagings(&v, ev.idx, ev.salt, cov, &mut out);
             }
+            // two-hop routes: extra supplemental arrays for either or both pools must not change the outcome
+            if out.is_empty() && c.name() == "two_hop_swap_v2" && ev.tx.ixs.len() == 1 {
+                let mut o17 = Vec::new();
+                crate::mon::c17::supplemental_lists(v.ix, v.pre, v.post, ev.salt, ev.idx, cov, &mut o17);
+                for mut x in o17 {
+                    x.property = "C10";
+                    out.push(x);
+                }
+            }
         }
         out
     }
